@@ -84,7 +84,7 @@ pub struct Case {
 
 pub fn gen_case(idx: u64) -> Case {
     let mut rng = Rng::for_case("C09", idx);
-    let mut lines: Vec<String> = vec!["#define MAC 77".into(), "#define FN(x) ((x)+1)".into(), "unsigned char out[24];".into(), "char *sp; char *sq;".into()];
+    let mut lines: Vec<String> = vec!["#define MAC 77".into(), "#define FN(x) ((x)+1)".into(), "#define Z 9".into(), "#define QZ 'Z'".into(), "unsigned char out[24];".into(), "char *sp; char *sq;".into()];
     let mut c = Case { src: String::new(), expect: vec![], chars: vec![], classes: vec![], positions: vec![], copy_from: None };
     let mut litno = 0usize; // order in which call-argument / table literals get cctmpN names
     let mut note = |c: &mut Case, l: &Lit| {
@@ -227,7 +227,7 @@ pub fn gen_case(idx: u64) -> Case {
             }
             5 => {
                 // character constants
-                let chs: Vec<(&str, i32)> = vec![("'a'", 97), ("'\\n'", 10), ("'\\\\'", 92), ("'\\''", 39), ("'\\0'", 0), ("' '", 32), ("'/'", 47), ("'#'", 35), ("'\\f'", 12), ("'\\t'", 9), ("'@'", 64), ("'*'", 42)];
+                let chs: Vec<(&str, i32)> = vec![("'a'", 97), ("'\\n'", 10), ("'\\\\'", 92), ("'\\''", 39), ("'\\0'", 0), ("' '", 32), ("'/'", 47), ("'#'", 35), ("'\\f'", 12), ("'\\t'", 9), ("'@'", 64), ("'*'", 42), ("'Z'", 90), ("QZ", 90), ("FN('Z')", 91), ("'\\a'", 7), ("'\\b'", 8), ("'\\v'", 11), ("'\\r'", 13)];
                 let (sp, v) = *rng.pick(&chs);
                 let name = format!("ck{}", item);
                 lines.push(format!("const char {} = {};", name, sp));
@@ -379,6 +379,7 @@ pub fn c09_pins() -> Vec<(&'static str, Case)> {
     vec![
         ("sibling_call_literals", mk("char *p;\nunsigned char r;\nchar g(char *s) { p = s; return 1; }\nchar h(char *a, char *b) { p = a; p = b; return 1; }\nvoid main() { r = g(\"aa\") + g(\"bb\"); h(\"cc\", (\"dd\")); }\n", vec![("cctmp0", vec![97, 97, 0]), ("cctmp1", vec![98, 98, 0]), ("cctmp2", vec![99, 99, 0]), ("cctmp3", vec![100, 100, 0])], vec![])),
         ("escaped_backslash_then_escaped_quote", mk("#if 0\nconst char d[] = \"\\\\\\\"/*\";\n#endif\nconst char s0[] = \"a\\\\\\\"b\";\nconst char s1[] = \"z\";\nvoid main() {}\n", vec![("s0", vec![97, 92, 34, 98, 0]), ("s1", vec![122, 0])], vec![])),
+        ("macro_name_in_character_constant", mk("#define a 5\n#define Q 'a'\nconst char k0 = 'a';\nconst char k1 = Q;\nvoid main() {}\n", vec![], vec![("k0", 97), ("k1", 97)])),
         ("formfeed_escape", mk("const char s0[] = \"a\\fb\";\nconst char ck = '\\f';\nvoid main() {}\n", vec![("s0", vec![97, 12, 98, 0])], vec![("ck", 12)])),
     ]
 }
